@@ -60,6 +60,13 @@ fn do_async_rstep(
             Ok(pos) => StepRes::Pos(pos),
             Err(_) => StepRes::Err,
         },
+        RStep::ReadExact(n) => {
+            let mut buf = vec![0u8; *n];
+            match block_on(h.read_exact(&mut buf)) {
+                Ok(()) => StepRes::Read(buf),
+                Err(_) => StepRes::Err,
+            }
+        }
         RStep::ReadToEnd => {
             let mut v = Vec::new();
             match block_on(h.read_to_end(&mut v)) {
@@ -134,6 +141,9 @@ pub fn async_reader_scripts(
                             summary: format!("async reader on {} over {:?}: after {:?} the call {:?} at position {} returned {:?}, a sync reader / cursor returns {:?}", cfg.label(), String::from_utf8_lossy(content), &script[..i], s, pos, got, want),
                             replay: json!({"engine": "async-reader", "configuration": cfg.label(), "content": content, "script": format!("{:?}", &script[..=i])}),
                         });
+                        break;
+                    }
+                    if matches!(s, RStep::ReadExact(_)) && want == StepRes::Err {
                         break;
                     }
                 }
@@ -975,6 +985,23 @@ pub fn panic_sweep(ctx: &Ctx) -> (u64, Vec<Violation>) {
     ] {
         for c in [&b""[..], &b"abcd"[..]] {
             n += async_reader_scripts(&cfg, base, c, 3, &mut vio);
+        }
+    }
+    // the timestamp setters of the physical async backend under an executor that is not tokio
+    for cfg in [Cfg::Phys, Cfg::alt(Cfg::Phys, "/Z"), Cfg::Ov(vec![Cfg::Phys, Cfg::Phys])] {
+        let ab = abuild(&cfg, Order::Asc, &[(0, vec![("/f".to_string(), Node::File(b"x".to_vec())), ("/d".to_string(), Node::Dir)])]);
+        for p in ["/f", "/d", "", "/absent"] {
+            for k in 0..3u8 {
+                n += 1;
+                if let Outcome::Panic(m) = apply(&ABlock(ab.root.clone()), &Op::SetTime(p.to_string(), k)) {
+                    vio.push(Violation {
+                        property: "C13".into(),
+                        signature: format!("async {}|{}|panic|{}", cfg.label(), Op::SetTime(p.to_string(), k).name(), m.split(" @ ").last().unwrap_or("")),
+                        summary: format!("{} on {:?} of async {} panicked: {}", Op::SetTime(p.to_string(), k).name(), p, cfg.label(), m),
+                        replay: json!({"engine": "async-setters", "configuration": cfg.label(), "path": p, "field": k}),
+                    });
+                }
+            }
         }
     }
     // walks in which a listed directory vanishes at every walker position (one Pending everywhere)
